@@ -13,6 +13,8 @@ mod dens;
 mod ord;
 mod c16;
 mod c07;
+mod c13;
+mod c12;
 use util::*;
 
 fn main() {
@@ -22,6 +24,10 @@ fn main() {
         std::process::exit(2);
     }
     let cmd = args[1].as_str();
+    if cmd == "child-c12" {
+        c12::child(&args[2..]);
+        return;
+    }
     if cmd == "child-dens" {
         std::panic::set_hook(Box::new(|_| {}));
         dens::child(&args[2..]);
@@ -79,6 +85,14 @@ fn main() {
                     c04::corr_smh(&mut ctx)
                 }
                 "C16" => c16::corr(&mut ctx),
+                "C13" => {
+                    c13::corr(&mut ctx);
+                    ord::corr(&mut ctx)
+                }
+                "C12" => {
+                    c12::corr(&mut ctx);
+                    ord::corr(&mut ctx)
+                }
                 "C07" => {
                     c07::corr_bounds(&mut ctx);
                     ssk::corr_sets(&mut ctx)
